@@ -6,7 +6,12 @@ import random
 from harness import core, runfamily as rf, runsim
 
 LEVEL = "model_checking"
-FOREIGNS = [[], ["o0"], ["t0"], ["o0", "t0"], ["o0", "o1"], ["o0", "t1"]]
+import itertools
+# every set of pre-existing files among the first two candidates' names, plus sets that push the search to the
+# third and fourth candidate (the last candidate, out-3.h5, is always left free)
+_BASE = ["o0", "t0", "o1", "t1"]
+FOREIGNS = [list(c) for r in range(5) for c in itertools.combinations(_BASE, r)] + \
+           [["o0", "t1", "o2"], ["t0", "o1", "t2"], ["o0", "o1", "o2"], ["t0", "t1", "o2"], ["o0", "t1", "t2"]]
 
 
 def bounds(ctx):
@@ -20,8 +25,15 @@ def bounds(ctx):
 def run(ctx):
     b = bounds(ctx)
     ctx.cov["bounds"] = {"TdglRun": b, "mechanism": rf.MECH}
-    ctx.model_check("TdglRun", rf.model_cfg(b, rf.MECH, rf.INV_C15), name="TdglRun[C15]",
+    # the loop/fault dimension and the file-system dimension only meet in OpenFiles and Close, so the state
+    # space is explored as two products: all fault histories x a few file configurations, and all file
+    # configurations x the fault histories of a short run
+    bA = dict(b, Foreigns=[[], ["o0"], ["t0", "o1"]])
+    bB = dict(b, Ks=[2], SolveTs=[2], DTS=[1])
+    ctx.model_check("TdglRun", rf.model_cfg(bA, rf.MECH, rf.INV_C15), name="TdglRun[C15, faults]",
                     required_actions=["Fault", "OpenFiles", "Close", "Assemble", "SaveBegin"], timeout=3000)
+    ctx.model_check("TdglRun", rf.model_cfg(bB, rf.MECH, rf.INV_C15), name="TdglRun[C15, pre-existing files]",
+                    required_actions=["Fault", "OpenFiles", "Close"], timeout=3000)
     # the known finding must still be a counterexample of the un-weakened clause (else it is stale)
     small = dict(b, Ks=[2], SolveTs=[3], SkipTs=[0], MaxFaults=1, Foreigns=[[]], OutModes=["temp"])
     if any(f.get("status") == "open" and f["key"].startswith("C15:KI@update/post") for f in ctx.findings):
@@ -29,7 +41,7 @@ def run(ctx):
                         name="TdglRun[known finding F-ghost still present in the design]",
                         expect_violation="RecordsOncePerStepInOrder", count=False)
     # design canaries: the pinned mechanism violates the C15 clauses
-    small2 = dict(b, Ks=[2], SolveTs=[2, 3], SkipTs=[0], MaxFaults=1)
+    small2 = dict(b, Ks=[2], SolveTs=[2, 3], SkipTs=[0], MaxFaults=1, Foreigns=[[], ["t0"], ["o0", "t1"]])
     for inv in ("NoStrayOutput", "OutputHoldsOnlyCompleteFrames", "CancelGivesUsableSolution"):
         ctx.model_check("TdglRun", rf.model_cfg(small2, rf.PINNED, [inv]), name=f"TdglRun[pinned mechanism, {inv}]",
                         expect_violation=inv, count=False)
@@ -37,7 +49,7 @@ def run(ctx):
     # export uses all fault histories with two output configurations and all output configurations
     # with a few fault histories (the model check above covers the full product)
     eb1 = dict(b, Foreigns=[[]], OutModes=["temp", "path"])
-    eb2 = dict(b, Ks=[2], SolveTs=[2], SkipTs=[0], DTS=[1])
+    eb2 = dict(b, Ks=[2], SolveTs=[2], SkipTs=[0], DTS=[1], MaxFaults=1)
     s1, _ = rf.export_behaviours(ctx, eb1, rf.MECH, name="TdglRunGen[faults]")
     s2, _ = rf.export_behaviours(ctx, eb2, rf.MECH, name="TdglRunGen[outputs]")
     rnd = random.Random(ctx.seed)
